@@ -677,6 +677,71 @@ impl MessageBuf {
 	}
 }
 
+/// Verification hooks (feature `_verif`).
+#[cfg(feature = "_verif")]
+pub mod verif_hooks {
+	use super::{MessageBuf, PeerChannelEncryptor};
+	use crate::sign::{KeysManager, NodeSigner, Recipient};
+	use bitcoin::secp256k1::{Secp256k1, SecretKey};
+
+	/// Two real encryptors complete the handshake (fixed keys); the initiator then encrypts `n` messages of `len`
+	/// bytes (byte value = message index) and the responder decrypts each one, length header first, then the body.
+	/// Message number `tamper_at` (1-based, 0 = none) has one bit flipped on the wire: `tamper_where` 0 = in the
+	/// encrypted length, 1 = in the length MAC, 2 = in the encrypted body, 3 = in the body MAC. The same is then done
+	/// in the other direction. Returns, per direction, (messages delivered intact before the first failure, kind of
+	/// the first failure, its index); kinds: 0 none, 1 the length header was rejected, 2 a wrong length was accepted,
+	/// 3 the body was rejected, 4 a wrong body was accepted.
+	pub fn noise_probe(
+		n: usize, len: usize, tamper_at: usize, tamper_where: u8,
+	) -> [(usize, u8, usize); 2] {
+		let secp = Secp256k1::new();
+		let signer_a = KeysManager::new(&[1; 32], 42, 42, true);
+		let signer_b = KeysManager::new(&[2; 32], 42, 42, true);
+		let id_b = signer_b.get_node_id(Recipient::Node).unwrap();
+		let mut out_peer =
+			PeerChannelEncryptor::new_outbound(id_b, SecretKey::from_slice(&[0x12; 32]).unwrap());
+		let mut in_peer = PeerChannelEncryptor::new_inbound(&&signer_b);
+		let act1 = out_peer.get_act_one(&secp);
+		let eph = SecretKey::from_slice(&[0x22; 32]).unwrap();
+		let act2 = in_peer.process_act_one_with_keys(&act1[..], &&signer_b, eph, &secp).unwrap();
+		let (act3, _) = out_peer.process_act_two(&act2[..], &&signer_a).unwrap();
+		in_peer.process_act_three(&act3[..]).unwrap();
+		let run = |tx: &mut PeerChannelEncryptor, rx: &mut PeerChannelEncryptor| {
+			for i in 1..=n {
+				let plain = vec![i as u8; len];
+				let mut wire = tx.encrypt_buffer(MessageBuf::from_encoded(&plain).unwrap());
+				if i == tamper_at {
+					let at = match tamper_where {
+						0 => 1,
+						1 => 5,
+						2 => 18,
+						_ => wire.len() - 3,
+					};
+					wire[at] ^= 0x10;
+				}
+				let l = match rx.decrypt_length_header(&wire[0..18]) {
+					Ok(l) => l as usize,
+					Err(_) => return (i - 1, 1, i),
+				};
+				if l != len || wire.len() != 18 + l + 16 {
+					return (i - 1, 2, i);
+				}
+				let mut body = wire[18..].to_vec();
+				if rx.decrypt_message(&mut body[..]).is_err() {
+					return (i - 1, 3, i);
+				}
+				if body[..l] != plain[..] {
+					return (i - 1, 4, i);
+				}
+			}
+			(n, 0, 0)
+		};
+		let fwd = run(&mut out_peer, &mut in_peer);
+		let back = run(&mut in_peer, &mut out_peer);
+		[fwd, back]
+	}
+}
+
 #[cfg(test)]
 mod tests {
 	use super::{MessageBuf, LN_MAX_MSG_LEN};
